@@ -137,6 +137,18 @@ class _Stdout:
         pass
 
 
+def itemno(item):
+    """What the model calls a queue message: 0 = end-of-batch marker, k + 1 = the record of priority k.  An implementation
+    whose messages have another shape (several records in one message, plain tuples) does not follow the model's protocol
+    step for step: -1, which no state of the model contains - the lock-step replay then reports a divergence and the run is
+    judged on its outcome (DESIGN 11.2b)."""
+    if item is None:
+        return 0
+    p = getattr(item, "priority", None)
+    return p + 1 if isinstance(p, int) and not isinstance(p, bool) else -1
+
+
+
 class Sched:
     """One run of `gaftools realign` under the fake multiprocessing layer."""
 
@@ -354,7 +366,7 @@ class Sched:
         p.pending = None
         p.release()
         p.wait_settled()
-        return {"item": 0 if item is None else item.priority + 1}
+        return {"item": itemno(item)}
 
     def a_WSentinel(self, w):
         return self.a_WPut(w, sentinel=True)
@@ -365,7 +377,7 @@ class Sched:
             raise Divergence("flush_not_possible", {"w": w})
         item = p.buf.pop(0)
         self.pipe.append(item)
-        return {"item": 0 if item is None else item.priority + 1}
+        return {"item": itemno(item)}
 
     def a_WExit(self, w):
         p = self._proc(w)
@@ -425,7 +437,7 @@ class Sched:
             raise Divergence("get_on_empty_pipe", {})
         item = self.pipe.pop(0)
         self.reply(item)
-        return {"item": 0 if item is None else item.priority + 1}
+        return {"item": itemno(item)}
 
     def a_PTimeout(self):
         if self.expect("get") == "blocking":
@@ -557,10 +569,10 @@ def run_script(argv, cap, C, labels, names_of):
             # compare what the implementation did with the specification's post-state
             if t in ("WPut", "WSentinel", "WFlush", "WKill", "WCrash", "PStart", "PGetItem"):
                 for ww in range(1, len(s.procs) + 1):
-                    got = [0 if i is None else i.priority + 1 for i in s.procs[ww - 1].buf]
+                    got = [itemno(i) for i in s.procs[ww - 1].buf]
                     if got != list(post["buf"][ww - 1]):
                         raise Divergence("buffer_mismatch", {"w": ww, "got": got, "spec": post["buf"][ww - 1]})
-                gp = [0 if i is None else i.priority + 1 for i in s.pipe]
+                gp = [itemno(i) for i in s.pipe]
                 if gp != list(post["pipe"]):
                     raise Divergence("pipe_mismatch", {"got": gp, "spec": post["pipe"]})
             if t == "PGetItem" and ev["item"] != post["last"]:
@@ -790,7 +802,7 @@ def run_schedule(argv, cap, C, labels, max_idle_calls=400):
                     break
                 if s.pipe:
                     item = s.pipe.pop(0)
-                    s.trace.append({"t": "get", "item": 0 if item is None else item.priority + 1})
+                    s.trace.append({"t": "get", "item": itemno(item)})
                     s.reply(item)
                 else:
                     s.trace.append({"t": "timeout"})
